@@ -330,7 +330,7 @@ where
         // sampling can spin forever: append a pseudo-random tail derived from the input
         let mut buf = data.to_vec();
         let mut x: u64 = data.iter().fold(0xcbf29ce484222325u64, |h, &b| (h ^ b as u64).wrapping_mul(0x100000001b3)) | 1;
-        while buf.len() < data.len() + 16384 {
+        while buf.len() < data.len() + (256 << 10) {
             x ^= x << 13;
             x ^= x >> 7;
             x ^= x << 17;
